@@ -245,6 +245,16 @@ pub fn run(ctx: &mut Ctx) {
             (b.name.clone(), m, out)
         })
         .collect();
+    // maps that make the encoder take every optional branch (flags, ids, unicode metadata, bookmarks,
+    // background, breaks, colours, all object kinds), in the four modes
+    let mut maps = maps;
+    for mode in 0..4 {
+        let text = format!("osu file format v14\n\n[General]\nAudioFilename: a.mp3\nAudioLeadIn: 5\nPreviewTime: 10\nCountdown: 2\nSampleSet: Soft\nStackLeniency: 0.5\nMode: {mode}\nLetterboxInBreaks: 1\nSpecialStyle: 1\nWidescreenStoryboard: 1\nEpilepsyWarning: 1\nCountdownOffset: 3\nSamplesMatchPlaybackRate: 1\n\n[Editor]\nBookmarks: 1,2,3\nDistanceSpacing: 1.5\nBeatDivisor: 8\nGridSize: 4\nTimelineZoom: 2\n\n[Metadata]\nTitle:t\nTitleUnicode:\u{4e0a}\nArtist:a\nArtistUnicode:\u{3042}\nCreator:c\nVersion:v\nSource:s\nTags:x y\nBeatmapID:7\nBeatmapSetID:9\n\n[Difficulty]\nHPDrainRate:3\nCircleSize:4\nOverallDifficulty:5\nApproachRate:6\nSliderMultiplier:1.8\nSliderTickRate:2\n\n[Events]\n0,0,\"bg.jpg\",0,0\n2,100,900\n\n[TimingPoints]\n0,500,4,2,1,60,1,0\n1000,-50,4,3,2,40,0,1\n\n[Colours]\nCombo1 : 1,2,3\nSliderBorder : 4,5,6\n\n[HitObjects]\n100,100,1000,5,2,1:2:0:30:f.wav\n100,100,2000,2,4,B|200:200|250:100|B|300:300,2,200,2|4|8,1:0|2:1|3:2,1:2:0:0:\n256,192,4000,12,8,5000,0:0:0:0:\n300,192,6000,128,0,7000:1:2:3:40:\n");
+        let m: Beatmap = rosu_map::from_str(&text).unwrap();
+        let mut out = Vec::new();
+        m.clone().encode(&mut out).unwrap();
+        maps.push((format!("generated map with every optional line (mode {mode})"), m, out));
+    }
     let mut wplan: Vec<(usize, WFault)> = vec![];
     for (mi, (_, _, clean)) in maps.iter().enumerate() {
         let small = clean.len() <= 4096;
